@@ -17,7 +17,8 @@ def run(c):
     else:
         _dp.model(c)
         trace = c.scratch + "/tamper.ndjson"
-        c.run_driver(drv, ["-mode", "tamper", "-out", trace, "-topos", "T1,T2,T3"])
+        c.run_driver(drv, ["-mode", "tamper", "-out", trace, "-topos", "T1,T2,T3"] +
+                     (["-random", 12] if c.thorough else []))
     _dp.validate(c, "C04", trace)
     n = cases = 0
     kinds = set()
